@@ -1391,6 +1391,14 @@ func TestVerifC07(t *testing.T) {
 		}
 	}
 
+	// histories run code that may panic in a goroutine of the MuxAgent / an agent (not recoverable here): every
+	// history is announced first (see bin/check, "#@begin")
+	runHist := func(ops []string) string {
+		fmt.Fprintln(f, "#@begin hist "+strings.Join(ops, " "))
+		_ = f.Sync()
+		return vRunHist(t, ops)
+	}
+
 	seed := vSeed()
 	r := &vRng{s: seed*0x1234567 + 99}
 	thorough := vThorough()
@@ -1402,13 +1410,13 @@ func TestVerifC07(t *testing.T) {
 
 	// 1. every registration order of 0..3 recipients on one endpoint
 	n := 0
-	vExhaustive(3, func(ops []string) { emit(vRunHist(t, ops)); n++ })
+	vExhaustive(3, func(ops []string) { emit(runHist(ops)); n++ })
 	emit(fmt.Sprintf("# exhaustive registration orders: %d histories", n))
 	lap("exhaustive")
 
 	// 2. many recipients per endpoint
 	for k := 4; k <= 6; k++ {
-		emit(vRunHist(t, vManyClients(r, k)))
+		emit(runHist(vManyClients(r, k)))
 	}
 
 	// 3. random histories
@@ -1417,7 +1425,7 @@ func TestVerifC07(t *testing.T) {
 		nh = 1500
 	}
 	for i := 0; i < nh; i++ {
-		emit(vRunHist(t, vRandomHist(r, 10+r.intn(25))))
+		emit(runHist(vRandomHist(r, 10+r.intn(25))))
 	}
 
 	lap("random-histories")
